@@ -1,6 +1,7 @@
 package panos
 
 import (
+	"encoding/xml"
 	"fmt"
 
 	"github.com/hknutzen/Netspoc-Approve/go/pkg/deviceconf"
@@ -27,6 +28,14 @@ func (p1 *PanConfig) MergeSpoc(c2 deviceconf.Config) deviceconf.Config {
 		}
 		if v2 != nil {
 			// Add elements of vsys from raw/IPv6.
+			checkNameClash(v1.Addresses, v2.Addresses, "address",
+				func(e *panAddress) string { return e.Name })
+			checkNameClash(v1.AddressGroups, v2.AddressGroups, "address-group",
+				func(e *panAddressGroup) string { return e.Name })
+			checkNameClash(v1.Services, v2.Services, "service",
+				func(e *panService) string { return e.Name })
+			checkNameClash(v1.ServiceGroups, v2.ServiceGroups, "service-group",
+				func(e *panServiceGroup) string { return e.Name })
 			v1.Addresses = append(v1.Addresses, v2.Addresses...)
 			v1.AddressGroups = append(v1.AddressGroups, v2.AddressGroups...)
 			v1.Services = append(v1.Services, v2.Services...)
@@ -51,6 +60,26 @@ func (p1 *PanConfig) MergeSpoc(c2 deviceconf.Config) deviceconf.Config {
 		errlog.Abort("%v", err)
 	}
 	return p1
+}
+
+// Object from raw/IPv6 with name of some already known object
+// must have identical definition.
+// Otherwise it would silently replace the known object.
+func checkNameClash[E any](l1, l2 []E, typ string, name func(E) string) {
+	m := make(map[string]E)
+	for _, e := range l1 {
+		m[name(e)] = e
+	}
+	for _, e2 := range l2 {
+		if e1, found := m[name(e2)]; found {
+			x1, _ := xml.Marshal(e1)
+			x2, _ := xml.Marshal(e2)
+			if string(x1) != string(x2) {
+				errlog.Abort("Name clash for %s '%s' from raw or IPv6",
+					typ, name(e2))
+			}
+		}
+	}
 }
 
 func processVsysPairs(c1, c2 *PanConfig, f func(v1, v2 *panVsys) error) error {
